@@ -18,6 +18,7 @@ class FakeWriter:
         self.fail_on = fail_on
         self.log = log if log is not None else []
         self.tag = tag
+        self.close_delay = 0        # seconds the transport takes to finish closing (a stalled peer)
 
     def write(self, b):
         self.writes += 1
@@ -34,6 +35,8 @@ class FakeWriter:
         self.log.append(["writer-closed", self.tag])
 
     async def wait_closed(self):
+        if self.close_delay:
+            await asyncio.sleep(self.close_delay)
         return None
 
 
